@@ -537,9 +537,22 @@ class Inliner:
             call, ctxkind = st.value, "aug"
         elif isinstance(st, ast.Return) and isinstance(st.value, ast.Call):
             call, ctxkind = st.value, "return"
+        h = None
         if call is None:
-            return None
-        h = self.helper_for(call, cls_name, self_names)
+            # x = self.<new property> / return self.<new property>: the getter is a helper without arguments
+            v = getattr(st, "value", None)
+            if isinstance(st, (ast.Assign, ast.Return, ast.AugAssign)) and isinstance(v, ast.Attribute) and isinstance(v.value, ast.Name) \
+                    and v.value.id in self_names and cls_name is not None:
+                cands = [fn for cn, fn in self.cls_funcs.get(v.attr, []) if cn == cls_name]
+                if len(cands) == 1 and "%s.%s" % (cls_name, v.attr) not in self.known and len(cands[0].args.args) == 1 \
+                        and any(isinstance(d, ast.Name) and d.id == "property" for d in cands[0].decorator_list) and _eligible(cands[0]):
+                    call = ast.copy_location(ast.Call(func=v, args=[], keywords=[]), v)
+                    ctxkind = {ast.Assign: "assign", ast.Return: "return", ast.AugAssign: "aug"}[type(st)]
+                    h = (cands[0], "instance", v.value)
+            if call is None:
+                return None
+        if h is None:
+            h = self.helper_for(call, cls_name, self_names)
         if h is None:
             return None
         fn, kind, recv = h
@@ -646,6 +659,16 @@ class Inliner:
             elif isinstance(v, list) and v and isinstance(v[0], ast.expr):
                 setattr(st, f, [T().visit(x) for x in v])
 
+    def _new_property(self, n, cls_name, self_names):
+        if isinstance(n.value, ast.Name) and n.value.id in self_names and cls_name is not None:
+            cands = [fn for cn, fn in self.cls_funcs.get(n.attr, []) if cn == cls_name]
+            if len(cands) == 1 and "%s.%s" % (cls_name, n.attr) not in self.known and len(cands[0].args.args) == 1 \
+                    and any(isinstance(d, ast.Name) and d.id == "property" for d in cands[0].decorator_list) and _eligible(cands[0]):
+                body = [s for s in cands[0].body if not (isinstance(s, ast.Expr) and isinstance(s.value, ast.Constant))]
+                if not (len(body) == 1 and isinstance(body[0], ast.Return)):
+                    return cands[0]          # single-return getters are substituted in place by expand_exprs
+        return None
+
     def hoist(self, st, cls_name, self_names):
         """`x.append(h(a))`, `y = f(h(a)) + 1`: the one inlinable call of a simple statement is bound to a fresh local
         first, provided every other call of the statement encloses it (so nothing is evaluated out of order)"""
@@ -660,6 +683,9 @@ class Inliner:
                 return
             if isinstance(n, ast.Call) and n is not root and self.helper_for(n, cls_name, self_names) is not None:
                 found.append((n, list(ancestors)))
+            elif isinstance(n, ast.Attribute) and n is not root and isinstance(n.ctx, ast.Load) and self._new_property(n, cls_name, self_names) is not None:
+                found.append((n, list(ancestors)))
+                return
             for c in ast.iter_child_nodes(n):
                 rec(c, ancestors + [n])
         rec(root, [])
@@ -679,6 +705,11 @@ class Inliner:
 
         class R(ast.NodeTransformer):
             def visit_Call(self, n):
+                if n is call:
+                    return ast.copy_location(ast.Name(id=nm, ctx=ast.Load()), n)
+                return self.generic_visit(n)
+
+            def visit_Attribute(self, n):
                 if n is call:
                     return ast.copy_location(ast.Name(id=nm, ctx=ast.Load()), n)
                 return self.generic_visit(n)
